@@ -1235,6 +1235,7 @@ func init() {
 	specs = append(specs, fluentModifySpecs...)
 	specs = append(specs, reconOpSpecs...)
 	specs = append(specs, fluentResultSpecs...)
+	specs = append(specs, fluentHeaderSpecs...)
 }
 
 // ---- the fluent builders (fluent/fluent.go)
@@ -1491,5 +1492,45 @@ var fluentResultSpecs = func() []fnSpec {
 		m("WithMPLSOperation", "flRWithMPLSOperation", []param{u64("i")}),
 		m("WithOperationType", "flRWithOperationType", []param{{goName: "c", goType: "constants.OpType", lean: "c", kd: kEnum}}),
 		pr, as,
+	}
+}()
+
+// ---- the encapsulation-header builders (fluent/fluent.go)
+
+var fluentHeaderSpecs = func() []fnSpec {
+	u64 := func(n string) param { return param{goName: n, goType: "uint64", lean: n, kd: kNat} }
+	str := func(n string) param { return param{goName: n, goType: "string", lean: n, kd: kStr} }
+	mtm := map[string]string{"aftpb.Afts_NextHop_EncapHeader": "EhMplsHdrB", "aftpb.Afts_NextHop_EncapHeader_Mpls": "EhMplsB",
+		"aftpb.Afts_NextHop_EncapHeader_Mpls_MplsLabelStackUnion": "MplsLabelU"}
+	utm := map[string]string{"aftpb.Afts_NextHop_EncapHeader": "EhUdpHdrB", "aftpb.Afts_NextHop_EncapHeader_UdpV6": "EhUdpB",
+		"wpb.UintValue": "UintValue", "wpb.StringValue": "StringValue"}
+	m := func(recvType, schema, goName, lean string, params []param, tm map[string]string) fnSpec {
+		return fnSpec{
+			file: "fluent/fluent.go", goName: goName, recvType: "*" + recvType, callAs: "-", leanName: lean,
+			params: params, goRets: "*" + recvType, rets: []string{},
+			state:   []stateField{{goExpr: "eh.pb", lean: "pb", kd: kPtrNN(schema)}},
+			typeMap: tm, builder: true,
+		}
+	}
+	ctor := func(goName, lean, ret string, tm map[string]string, k, v string) fnSpec {
+		return fnSpec{file: "fluent/fluent.go", goName: goName, callAs: "-", leanName: lean, goRets: "*" + ret, rets: []string{"ptr:" + ret}, typeMap: tm,
+			consts: map[string]string{k: v}, constMaps: map[string]string{"encapMap": lean + "_encapMap"}}
+	}
+	mp := m("mplsEncapHeader", "EhMplsHdrB", "EncapProto", "flHMplsEncapProto", nil, mtm)
+	mp.goRets, mp.rets, mp.mayHandOut = "*aftpb.Afts_NextHop_EncapHeader", []string{"ptr:EhMplsHdrB"}, true
+	up := m("udpv6EncapHeader", "EhUdpHdrB", "EncapProto", "flHUdpEncapProto", nil, utm)
+	up.goRets, up.rets, up.mayHandOut = "*aftpb.Afts_NextHop_EncapHeader", []string{"ptr:EhUdpHdrB"}, true
+	return []fnSpec{
+		ctor("MPLSEncapHeader", "flNewMPLSEncapHeader", "mplsEncapHeader", mtm, "MPLS", "2"),
+		m("mplsEncapHeader", "EhMplsHdrB", "WithLabels", "flHWithLabels", []param{{goName: "labels", goType: "...uint64", lean: "labels", kd: kind{k: "list", s: "Nat", elemNN: true}}}, mtm),
+		mp,
+		ctor("UDPV6EncapHeader", "flNewUDPV6EncapHeader", "udpv6EncapHeader", utm, "UDPV6", "3"),
+		m("udpv6EncapHeader", "EhUdpHdrB", "WithDSCP", "flHWithDSCP", []param{u64("dscp")}, utm),
+		m("udpv6EncapHeader", "EhUdpHdrB", "WithDstIP", "flHWithDstIP", []param{str("ip")}, utm),
+		m("udpv6EncapHeader", "EhUdpHdrB", "WithDstUDPPort", "flHWithDstUDPPort", []param{u64("port")}, utm),
+		m("udpv6EncapHeader", "EhUdpHdrB", "WithIPTTL", "flHWithIPTTL", []param{u64("ttl")}, utm),
+		m("udpv6EncapHeader", "EhUdpHdrB", "WithSrcIP", "flHWithSrcIP", []param{str("ip")}, utm),
+		m("udpv6EncapHeader", "EhUdpHdrB", "WithSrcUDPPort", "flHWithSrcUDPPort", []param{u64("port")}, utm),
+		up,
 	}
 }()
